@@ -1,5 +1,5 @@
 (* Model/C18Run.v - case type and checker evaluated on harness-generated cases (C18) *)
-From ReqV Require Export Lib.Bytes Model.Pipeline.
+From ReqV Require Export Lib.Bytes Model.Pipeline Model.Entry.
 Open Scope Z_scope.
 
 (* what the harness records from the real code after one call *)
@@ -19,7 +19,8 @@ Record observation := mkObs {
 
 Inductive c18_case :=
 | ClassCase (status : Z) (obs_state : Z)            (* Response.ResultState() with the default checker *)
-| ProgCase (p : program) (obs : observation).
+| ProgCase (p : program) (obs : observation)
+| EntryCase (name : bytes) (pkg : bool) (p : program) (obs : observation).   (* called through the named function of the generated table *)
 
 Definition opt_z_eqb (a b : option Z) : bool :=
   match a, b with
@@ -57,10 +58,7 @@ Definition nonempty (l : list event) : bool := match l with [] => false | _ => t
 Definition logs_eqb (a b : list (list event)) : bool :=
   list_eqb (list_eqb event_eqb) (filter nonempty a) (filter nonempty b).
 
-Definition c18_check (c : c18_case) : bool :=
-  match c with
-  | ClassCase s st => default_result_state s =? st
-  | ProgCase p o =>
+Definition prog_check (p : program) (o : observation) : bool :=
       match run Fixed p with
       | OutOfFuel => false
       | Panicked e ls h =>
@@ -75,5 +73,15 @@ Definition c18_check (c : c18_case) : bool :=
           end &&
           opt_z_eqb e (o_ret_err o) &&
           logs_eqb ls (o_logs o) && Nat.eqb h (o_hooks o)
+      end.
+
+Definition c18_check (c : c18_case) : bool :=
+  match c with
+  | ClassCase s st => default_result_state s =? st
+  | ProgCase p o => prog_check p o
+  | EntryCase name pkg p o =>
+      match kind_of entry_table name pkg with
+      | Some k => prog_check (mkProg k (p_cfg p) (p_attempts p)) o
+      | None => false
       end
   end.
